@@ -1408,6 +1408,20 @@ class Walker:
             return True
         if isinstance(s, ast.Pass):
             return None
+        if isinstance(s, ast.With) and len(s.items) == 1 and isinstance(s.items[0].context_expr, ast.Call):
+            # `with self._cm(args) [as T]: body` over a @contextmanager generator of the library (one `yield`): the generator's
+            # body with the `yield` replaced by the block - the loop over a generator that yields exactly once
+            it0 = s.items[0]
+            tgt = it0.optional_vars if it0.optional_vars is not None else ast.Name(id="$cm", ctx=ast.Store())
+            loop = ast.copy_location(ast.For(target=tgt, iter=it0.context_expr, body=s.body, orelse=[], lineno=s.lineno), s)
+            ast.fix_missing_locations(loop)
+            self._cm_ok = True
+            try:
+                gen = self._generator_loop(loop, env)
+            finally:
+                self._cm_ok = False
+            if gen is not None:
+                return True if gen[1] is True else None
         if isinstance(s, ast.With):
             for it in s.items:
                 v = self.ev(it.context_expr, env)
@@ -1721,14 +1735,19 @@ class Walker:
         g = fi.node
         if not any(isinstance(n, (ast.Yield, ast.YieldFrom)) for n in ast.walk(g)):
             return None
+        cm = any(d.split("(")[0].split(".")[-1] == "contextmanager" for d in fi.decorators)
+        if cm != bool(getattr(self, "_cm_ok", False)):
+            return None  # (a context manager is entered by `with`, a plain generator by `for`)
+        if cm and sum(1 for n in ast.walk(g) if isinstance(n, ast.Yield)) != 1:
+            return None
         if g.args.vararg or g.args.kwarg or fi.decorators and any(
-                d.split("(")[0].split(".")[-1] != "staticmethod" for d in fi.decorators):
+                d.split("(")[0].split(".")[-1] not in ("staticmethod", "contextmanager") for d in fi.decorators):
             return None
         for n in ast.walk(g):
             if isinstance(n, (ast.YieldFrom, ast.Return, ast.Lambda, ast.Global, ast.Nonlocal)) or \
                     (isinstance(n, (ast.FunctionDef, ast.ClassDef)) and n is not g):
                 return None
-            if isinstance(n, ast.Yield) and n.value is None:
+            if isinstance(n, ast.Yield) and n.value is None and not cm:
                 return None
         yields = [n for n in ast.walk(g) if isinstance(n, ast.Yield)]
         stmts_y = [n for n in ast.walk(g) if isinstance(n, ast.Expr) and isinstance(n.value, ast.Yield)]
@@ -1812,8 +1831,9 @@ class Walker:
                         out = []
                         for st in sub:
                             if isinstance(st, ast.Expr) and isinstance(st.value, ast.Yield):
-                                out.append(ast.copy_location(ast.Assign(targets=[s.target], value=st.value.value,
-                                                                        lineno=st.lineno), st))
+                                out.append(ast.copy_location(ast.Assign(
+                                    targets=[s.target], value=st.value.value if st.value.value is not None
+                                    else ast.copy_location(ast.Constant(value=None), st), lineno=st.lineno), st))
                                 out.extend(bind_counter)
                                 out.extend(s.body)
                             else:
